@@ -156,6 +156,7 @@ struct Server {
   std::size_t OnLength(const std::string& s) { g_log.push_back("Length(" + s + ")#" + std::to_string(id)); return s.size(); }
 };
 static nop::Result<Err, std::string> ref_lookup(int k) {
+  if (k == 7) return {};  // a Result in the empty state is a legal return value too
   if (k == 1) return std::string("one");
   if (k == 2) return std::string(300, 'z');
   if (k > 1000) return Err::Big;
@@ -239,7 +240,7 @@ static std::vector<CallOp> alphabet_a() {
     ops.push_back({"Keys(" + s + ")", [m, want](Conn& c) { return do_invoke<IfA::Keys, std::vector<std::string>>(c, want, eq_plain<std::vector<std::string>>, m); },
                    "Keys(" + s + ")"});
   }
-  for (int k : {1, 2, 3, 5000})
+  for (int k : {1, 2, 3, 7, 5000})
     ops.push_back({"Lookup(" + std::to_string(k) + ")",
                    [k](Conn& c) { return do_invoke<IfA::Lookup, nop::Result<Err, std::string>>(c, ref_lookup(k), eq_result, k); },
                    "Lookup(" + std::to_string(k) + ")"});
